@@ -627,3 +627,60 @@ func LenIVFont(t *sim.Tape) ([]byte, int) {
 	file = append(append(append([]byte{}, file[:k+len(marker)]...), ins...), file[k+len(marker):]...)
 	return file, n
 }
+
+// AltLayoutFont re-arranges a no-eexec font file written by the library into
+// an equivalent, legal but unusual layout: the (still empty) Private and
+// CharStrings dictionaries are entered into the font dictionary first and
+// filled afterwards.  A file of this layout that is cut off inside the glyph
+// list leaves a half-filled font dictionary behind.
+func AltLayoutFont(t *sim.Tape, maxGlyphs int) ([]byte, string) {
+	f := GenFont(t, maxGlyphs)
+	file, err := FontFile(f, type1.FormatNoEExec)
+	if err != nil {
+		return nil, ""
+	}
+	a := []byte("dup /Private 15 dict dup begin\n")
+	i := bytes.Index(file, a)
+	b := []byte("\n2 index /CharStrings ")
+	j := bytes.Index(file, b)
+	c := []byte("end\nend\nreadonly put\nput\ndup /FontName get exch definefont pop\n")
+	k := bytes.LastIndex(file, c)
+	if i < 0 || j < i || k < j {
+		return nil, ""
+	}
+	// "2 index /CharStrings N dict dup begin\n"
+	lineEnd := j + 1 + bytes.IndexByte(file[j+1:], '\n')
+	line := string(file[j+1 : lineEnd])
+	var n int
+	if _, err := fmt.Sscanf(line, "2 index /CharStrings %d dict dup begin", &n); err != nil {
+		return nil, ""
+	}
+	var out []byte
+	out = append(out, file[:i]...)
+	out = append(out, fmt.Sprintf("dup /Private 15 dict put\ndup /CharStrings %d dict put\ndup /Private get begin\n", n)...)
+	out = append(out, file[i+len(a):j+1]...)
+	out = append(out, "dup /CharStrings get begin\n"...)
+	out = append(out, file[lineEnd+1:k]...)
+	out = append(out, "end\nend\ndup /FontName get exch definefont pop\n"...)
+	out = append(out, file[k+len(c):]...)
+	return out, DescribeFont(f) + ", dictionaries entered before they are filled"
+}
+
+// LongGlyph draws a glyph whose charstring is well over 512 bytes long.
+func LongGlyph(t *sim.Tape) *type1.Glyph {
+	g := &type1.Glyph{WidthX: float64(t.Range(200, 900))}
+	x, y := 0.0, 0.0
+	g.MoveTo(x, y)
+	for s := 130 + t.Choose(200); s > 0; s-- {
+		x += float64(t.Range(-300, 300))
+		y += float64(t.Range(-300, 300))
+		if t.Bool(1, 3) {
+			g.CurveTo(x+10, y-7, x+123, y+201, x-150, y+333)
+			x, y = x-150, y+333
+		} else {
+			g.LineTo(x, y)
+		}
+	}
+	g.ClosePath()
+	return g
+}
